@@ -289,6 +289,24 @@ static function_index_t add_new_function_entry () {
   return (function_index_t)index;
 }
 
+/**
+ * @brief Make 'where' the function entry an identifier stands for.
+ * The identifier table keeps the number in a short (-1: not a function): an
+ * entry above SHRT_MAX is reported and gets no name. It cannot be called by
+ * name then, which does not matter in a compilation that has failed.
+ */
+static void set_function_num (ident_hash_elem_t *ihe, int where) {
+
+  if (where > SHRT_MAX)
+    {
+      yyerror ("Too many functions in program (at most 32768, the inherited ones included).");
+      return;
+    }
+  if (ihe->dn.function_num == -1)
+    ihe->sem_value++;
+  ihe->dn.function_num = (short)where;
+}
+
 /* copy a function verbatim into this object, and possibly add it to the
    list of functions in this object, as well
  */
@@ -321,9 +339,7 @@ static void copy_function (program_t * prog, function_index_t index,
 
   /* add the identifier */
   ihe = find_or_add_ident (defprog->function_table[defindex].name, FOA_GLOBAL_SCOPE);
-  if (ihe->dn.function_num == -1)
-    ihe->sem_value++;
-  ihe->dn.function_num = (function_index_t)where;
+  set_function_num (ihe, where);
 }
 
 int lookup_class_member (int which, const char *name, lpc_type_t *type) {
@@ -1017,9 +1033,7 @@ int define_new_function (char *name, int num_arg, int num_local, uint64_t flags,
         {
           runtime_num = add_new_function_entry ();
           ihe = find_or_add_ident (funp->name, FOA_GLOBAL_SCOPE);
-          if (ihe->dn.function_num == -1)
-            ihe->sem_value++;
-          ihe->dn.function_num = (function_index_t)runtime_num;
+          set_function_num (ihe, runtime_num);
           FUNCTION_ALIAS (runtime_num) = 0;
         }
     }
@@ -1068,7 +1082,13 @@ int define_variable (char *name, int type, int hide) {
   n = (int)(mem_block[A_VAR_TEMP].current_size / sizeof (variable_t));
 
   ihe = find_or_add_ident (name, FOA_GLOBAL_SCOPE);
-  if (ihe->dn.global_num == -1)
+  if (n > SHRT_MAX)
+    {
+      /* the identifier table keeps the number in a short (-1: not a variable):
+       * this variable is reported and gets no name */
+      yyerror ("Too many global variables in program (at most 32768, the inherited ones included).");
+    }
+  else if (ihe->dn.global_num == -1)
     {
       ihe->sem_value++;
       ihe->dn.global_num = (short)n;
